@@ -172,7 +172,10 @@ func (p *Program) preDecodeBlocks() ExitReason {
 
 	pc := ProgramCounter(0)
 	for pc < ProgramCounter(n) {
-		if !bitmask.IsStartOfBasicBlock(pc) {
+		// decode from every instruction start that is not covered yet: besides the basic-block starts
+		// these are the instructions following an invalid opcode, which end the block before them
+		// without being terminators and are legitimate entry points
+		if !bitmask.IsStartOfInstruction(int(pc)) {
 			pc++
 			continue
 		}
